@@ -8,6 +8,7 @@ use sophia_api::sparql::{SparqlDataset, SparqlResult};
 use sophia_api::term::SimpleTerm;
 use sophia_sparql::SparqlWrapper;
 use std::cmp::Ordering;
+mod orderby;
 
 #[derive(Clone, Debug, PartialEq)]
 struct V { kind: &'static str, lit: String }
@@ -46,6 +47,7 @@ fn cmp(a: &V, b: &V) -> Option<Ordering> {
 
 fn main() {
     let only = std::env::args().nth(1);
+    if let Some(m) = &only { if m == "orderby" || m == "findings" { orderby::main_orderby(m); return; } }
     let vs = values();
     let mut n = 0u64;
     for a in &vs { for b in &vs { for c in &vs {
